@@ -18,6 +18,8 @@ from symx.common import Report, run_instances, import_repo, src_hash, write_repl
 PID = 'C11'
 EPS8 = z3.Q(1, 10 ** 8)
 DEG2 = z3.Q(3, 10 ** 16)
+RND = z3.Q(1, 10 ** 9)      # relative slack for double rounding of the concrete layout constants
+TINY = z3.Q(1, 10 ** 24)
 BAND = z3.Q(1, 10 ** 7)      # band on squared distances around the radius for the degenerate-edge tolerance
 
 
@@ -42,6 +44,14 @@ SHAPES = {
     'e2_fan': ({1: [2, 3], 2: [], 3: []}, 'edges'),
     'e1_selfloop': ({1: [1, 2], 2: []}, 'edges'),
 }
+
+
+def same_pt(p, q):
+    def sn(x, y):
+        if isinstance(x, E.Sym) or isinstance(y, E.Sym):
+            return isinstance(x, E.Sym) and isinstance(y, E.Sym) and x.t.get_id() == y.t.get_id()
+        return x == y
+    return sn(p[0], q[0]) and sn(p[1], q[1])
 
 
 def c_pt_seg(p, a, b):
@@ -102,17 +112,51 @@ LAYOUTS = {   # concrete coordinates (y, x) for nodes 1..3; the query point and 
     'diag': {1: (0.5, -1.0), 2: (2.0, 3.0), 3: (-1.0, 1.0)},
     'zero': {1: (1.0, 1.0), 2: (1.0, 1.0), 3: (1.0, 2.0)},
     'tiny': {1: (50.87, 4.7), 2: (50.87, 4.70008), 3: (50.87003, 4.7)},
-    'metres1e7': {1: (5650000.0, 10000000.0), 2: (5650080.0, 10000060.0), 3: (5650000.0, 10000100.0)},
+    'metres1e7': {1: (5650000.3, 10000000.7), 2: (5650080.4, 10000060.2), 3: (5650000.6, 10000100.9)},
 }
 
 
-def run_instance(inst):
+def make_map(backend, graph, coords, d=None, tag=0):
+    """InMemMap or SqliteMap (labels are ints) holding the given graph."""
+    import contextlib
+    import io
     from leuvenmapmatching.map.inmem import InMemMap
+    if backend == 'inmem':
+        return InMemMap("m", graph={n: (coords[n], list(graph[n])) for n in graph}, use_latlon=False)
+    from leuvenmapmatching.map.sqlite import SqliteMap
+    with contextlib.redirect_stdout(io.StringIO()):
+        m = SqliteMap(f"c11_{tag}", use_latlon=False, dir=d)
+        for n in graph:
+            m.add_node(n, coords[n])
+        for a in graph:
+            for b in graph[a]:
+                if a != b:
+                    m.add_edge(a, b)
+    return m
+
+
+def query(m, kind, loc, r, max_elmt):
+    import contextlib
+    import io
+    with contextlib.redirect_stdout(io.StringIO()):
+        return m.nodes_closeto(loc, max_dist=r, max_elmt=max_elmt) if kind == 'nodes' else m.edges_closeto(loc, max_dist=r, max_elmt=max_elmt)
+
+
+def run_instance(inst):
+    import shutil
+    from symx import sqlshim
+    from harness import sqlcommon
     shape, max_elmt = inst[0], inst[1]
     layout = inst[3] if len(inst) > 3 else None
+    backend = inst[4] if len(inst) > 4 else 'inmem'
     graph, kind = SHAPES[shape]
     shims.install()
-    name = f"inmem {kind} {shape} max_elmt={max_elmt} coords={layout or 'symbolic'}"
+    d = None
+    if backend == 'sqlite':
+        sqlcommon.install()
+        d = sqlcommon.scratch_dir()
+    cnt = [0]
+    name = f"{backend} {kind} {shape} max_elmt={max_elmt} coords={layout or 'symbolic'}"
 
     def scenario():
         eng = E.get_engine()
@@ -120,16 +164,15 @@ def run_instance(inst):
             coords = {n: (eng.fresh(f"y{n}"), eng.fresh(f"x{n}")) for n in graph}
         else:
             coords = {n: LAYOUTS[layout][n] for n in graph}
-        g = {n: (coords[n], list(graph[n])) for n in graph}
-        mp = InMemMap("m", graph=g, use_latlon=False)
+        cnt[0] += 1
+        if backend == 'sqlite':
+            sqlshim.reset()
+        mp = make_map(backend, graph, coords, d, cnt[0])
         loc = (eng.fresh("qy"), eng.fresh("qx"))
         r2 = z3.Real("r_sq")
         eng.assume(r2 > 0)
         r = eng.sqrt_of(r2, name="r")
-        if kind == 'nodes':
-            res = mp.nodes_closeto(loc, max_dist=r, max_elmt=max_elmt)
-        else:
-            res = mp.edges_closeto(loc, max_dist=r, max_elmt=max_elmt)
+        res = query(mp, kind, loc, r, max_elmt)
         return dict(coords=coords, loc=loc, r=r, r2=r2, res=res)
 
     def claims(eng, v):
@@ -152,16 +195,19 @@ def run_instance(inst):
             radic[key] = D2
             if kind == 'nodes':
                 cl.append((f'distance_of_{key}', D2 == d2(loc, C[key[0]])))
-                cl.append((f'location_of_{key}', z3.BoolVal(row[2] is coords[key[0]])))
+                cl.append((f'location_of_{key}', z3.BoolVal(same_pt(row[2], coords[key[0]]))))
             else:
                 a, b = C[key[0]], C[key[1]]
                 pi, ti = Lp(row[5]), E.lift(row[6])
                 degenerate = z3.And(a[0] - b[0] <= EPS8, b[0] - a[0] <= EPS8, a[1] - b[1] <= EPS8, b[1] - a[1] <= EPS8)
-                cl.append((f'projection_of_{key}', z3.And(ti >= 0, ti <= 1, pi[0] == a[0] + ti * (b[0] - a[0]), pi[1] == a[1] + ti * (b[1] - a[1]),
-                                                          D2 == d2(loc, pi))))
+                # concrete layout coordinates are combined in IEEE double by the code (e.g. s2-s1, l2): tolerances for that rounding
+                on = at(a, b, ti)
+                cl.append((f'projection_of_{key}', z3.And(ti >= 0, ti <= 1, d2(pi, on) <= RND * (d2(a, b) + 1) * RND,
+                                                          D2 - d2(loc, pi) <= RND * D2 + TINY, d2(loc, pi) - D2 <= RND * D2 + TINY)))
                 w = at(a, b, u)
-                cl.append((f'nearest_point_of_{key}', z3.Implies(z3.And(u >= 0, u <= 1), z3.If(degenerate, d2(pi, w) <= DEG2, d2(loc, w) >= D2))))
-                cl.append((f'end_points_of_{key}', z3.BoolVal(row[2] is coords[key[0]] and row[4] is coords[key[1]])))
+                cl.append((f'nearest_point_of_{key}', z3.Implies(z3.And(u >= 0, u <= 1),
+                                                                 z3.If(degenerate, d2(pi, w) <= DEG2, d2(loc, w) * (1 + RND) + TINY >= D2))))
+                cl.append((f'end_points_of_{key}', z3.BoolVal(same_pt(row[2], coords[key[0]]) and same_pt(row[4], coords[key[1]]))))
         # membership: full scan
         if max_elmt is None:
             for key, q in elems:
@@ -194,24 +240,74 @@ def run_instance(inst):
         cc = {n: tuple(E.model_value(model, c.t) if E.is_sym(c) else float(c) for c in p) for n, p in v['coords'].items()}
         loc = tuple(E.model_value(model, c.t) for c in v['loc'])
         r = max(E.model_value(model, v['r2']), 0.0) ** 0.5
-        with shims.concrete():
-            mp = InMemMap("m", graph={n: (cc[n], list(graph[n])) for n in graph}, use_latlon=False)
-            try:
-                res = mp.nodes_closeto(loc, max_dist=r, max_elmt=max_elmt) if kind == 'nodes' else mp.edges_closeto(loc, max_dist=r, max_elmt=max_elmt)
-            except Exception as e:
-                return dict(desc=f"raised {e!r}", coords=cc, loc=loc, radius=r, shape=shape, max_elmt=max_elmt)
-        bad = concrete_oracle(kind, graph, cc, loc, r, max_elmt, res)
+        bad, res = concrete_query(backend, shape, cc, loc, r, max_elmt)
         if bad:
-            return dict(desc=f"InMemMap.{kind}_closeto(loc={loc}, max_dist={r}, max_elmt={max_elmt}) on {cc}: {bad}", coords={str(k): v_ for k, v_ in cc.items()},
-                        loc=loc, radius=r, shape=shape, max_elmt=max_elmt)
+            cls = 'InMemMap' if backend == 'inmem' else 'SqliteMap'
+            return dict(desc=f"{cls}.{kind}_closeto(loc={loc}, max_dist={r}, max_elmt={max_elmt}) on {cc}: {bad}", coords={str(k): v_ for k, v_ in cc.items()},
+                        loc=loc, radius=r, shape=shape, max_elmt=max_elmt, backend=backend)
         return None
 
     def witness(eng, v):
         return [f'result_size_{len(v["res"])}']
-    out = runner.explore(name, runner.nra_engine(10000), scenario, claims, confirm=confirm, witness=witness,
-                         budget_s=inst[2] if len(inst) > 2 else None)
-    shims.uninstall()
+    try:
+        out = runner.explore(name, runner.nra_engine(10000), scenario, claims, confirm=confirm, witness=witness,
+                             budget_s=inst[2] if len(inst) > 2 else None)
+    finally:
+        shims.uninstall()
+        if backend == 'sqlite':
+            sqlcommon.uninstall()
+            shutil.rmtree(d, ignore_errors=True)
     return out
+
+
+def concrete_query(backend, shape, cc, loc, r, max_elmt):
+    """The query on doubles with the unmodified code (real sqlite3 for the SQLite backend) + concrete oracle."""
+    import shutil
+    from harness import sqlcommon
+    graph, kind = SHAPES[shape]
+    d = sqlcommon.scratch_dir() if backend == 'sqlite' else None
+    try:
+        with shims.concrete():
+            was = False
+            if backend == 'sqlite':
+                from leuvenmapmatching.map import sqlite as sq
+                was = sq.sqlite3 is not getattr(sq, '_real_sqlite3', sq.sqlite3)
+                sqlcommon.uninstall()
+            try:
+                mp = make_map(backend, graph, cc, d, 'replay')
+                res = query(mp, kind, loc, r, max_elmt)
+                if backend == 'sqlite':
+                    mp.db.close()
+            except Exception as e:
+                return f"raised {e!r}", None
+            finally:
+                if was:
+                    sqlcommon.install()
+        return concrete_oracle(kind, graph, cc, loc, r, max_elmt, res), res
+    finally:
+        if d:
+            shutil.rmtree(d, ignore_errors=True)
+
+
+def known_sqlite(v, findings):
+    """Known finding F-C11-sqlite-rtree-float32: an element within the radius is missing from a SqliteMap query and one of its
+    coordinates is within the float32 rounding (2^-22 relative) of the border of the box [loc - r, loc + r]."""
+    import re
+    m = re.search(r": \((\d+)(?:, (\d+))?,?\) at distance \S+ < radius \S+ is missing from the result", v.get('desc', ''))
+    if not m or 'coords' not in v:
+        return None
+    (qy, qx), r = v['loc'], v['radius']
+    pts = [v['coords'].get(k) or v['coords'].get(int(k)) for k in m.groups() if k]
+    near = False
+    for c in pts:
+        for val, q in ((c[0], qy), (c[1], qx)):
+            ulp = 2.0 ** -22 * abs(val) + 1e-300
+            if abs(abs(val - q) - r) <= 2 * ulp:
+                near = True
+    for f in findings:
+        if f.get('predicate') == 'sqlite_rtree_float32_border' and near:
+            return f"{f['id']}: {f['what'][:160]}"
+    return None
 
 
 def known_finding(v, findings):
@@ -219,6 +315,8 @@ def known_finding(v, findings):
     lies outside the box [loc - r, loc + r] (that is exactly the pre-filter of the linear scan)."""
     import re
     m = re.search(r": \((\d+), (\d+)\) at distance \S+ < radius \S+ is missing from the result", v.get('desc', ''))
+    if v.get('backend') == 'sqlite':
+        return known_sqlite(v, findings)
     if not m or 'coords' not in v or not v.get('desc', '').startswith('InMemMap.edges_closeto'):
         return None
     a = m.group(1)
@@ -239,6 +337,8 @@ def instances(tier):
     for lay in LAYOUTS:
         out += [('e1', None, lay), ('e2_bidir', None, lay)]
     out += [('e2_fan', None, 'unit'), ('e2_fan', 1, 'unit'), ('e1_selfloop', None, 'long'), ('e2_fan', 1, 'metres1e7')]
+    out += [('n1', None, None, 'sqlite'), ('n2', None, None, 'sqlite'), ('n2', 1, 'metres1e7', 'sqlite'), ('n2', None, 'metres1e7', 'sqlite'), ('n3', None, 'unit', 'sqlite'), ('e1', None, 'unit', 'sqlite'),
+            ('e1', None, 'long', 'sqlite'), ('e2_bidir', None, 'metres1e7', 'sqlite'), ('e2_fan', None, 'diag', 'sqlite')]
     if tier == 'thorough':
         out += [('n3', None, None), ('n3', 2, None), ('e1', None, None), ('e2_bidir', None, None), ('e1_selfloop', None, None)]
         out += [('e2_fan', m, lay) for m in (None, 1, 2) for lay in LAYOUTS]
@@ -250,14 +350,17 @@ def main(tier):
     from leuvenmapmatching.map import inmem
     from leuvenmapmatching.util import dist_euclidean as de
     rep = Report(PID, tier)
-    rep.functions = src_hash(inmem.InMemMap.nodes_closeto, inmem.InMemMap.edges_closeto, inmem.InMemMap._items_in_bb, de.box_around_point,
+    from leuvenmapmatching.map import sqlite as sq
+    from harness import sqlcommon
+    rep.validated += sqlcommon.selftest(8 if tier == 'quick' else 40)
+    rep.functions = src_hash(sq.SqliteMap.nodes_closeto, sq.SqliteMap.edges_closeto, sq.SqliteMap.all_nodes, sq.SqliteMap.all_edges, inmem.InMemMap.nodes_closeto, inmem.InMemMap.edges_closeto, inmem.InMemMap._items_in_bb, de.box_around_point,
                              de.distance, de.distance_point_to_segment, de.project)
     budget = 150 if tier == 'quick' else 1500
     res = run_instances(run_instance, [i[:2] + (budget,) + i[2:] for i in instances(tier)])
     rep.bounds = dict(backend="InMemMap without index (rtree package not installed)", metric="planar",
                       maps="nodes_closeto: <=%d nodes, all coordinates symbolic; edges_closeto: <=2 directed edges (incl. self-listed neighbour) with coordinates from the layouts %s" % (2 if tier == 'quick' else 3, sorted(LAYOUTS)) + ("; plus 1-2 edges fully symbolic" if tier == 'thorough' else "") + "; query point and radius always symbolic",
                       max_elmt="None, 1" + (", 2" if tier == 'thorough' else ""))
-    rep.outside = ["rounding", "rtree-indexed InMemMap", "latitude-longitude metric (needs the angle algebra; see DESIGN.md)", "SqliteMap: see evidence key sqlite"]
+    rep.outside = ["rounding", "rtree-indexed InMemMap", "latitude-longitude metric (needs the angle algebra; see DESIGN.md)", "SqliteMap runs use the parsing SQL shim with the float32 interval contract (replay on the real sqlite3)"]
     rep.assumptions = ["math.sqrt exact", "np.isclose as |a-b|<=atol", "list.sort on tuples of symbolic numbers forks on comparisons"]
     known = set()
     findings = load_findings(PID)
@@ -291,9 +394,7 @@ def replay_file(path):
     d = json.load(open(path))
     graph, kind = SHAPES[d['shape']]
     cc = {n: tuple(d['coords'][str((n))] if str(n) in d['coords'] else d['coords'][n]) for n in graph}
-    mp = InMemMap("m", graph={n: (cc[n], list(graph[n])) for n in graph}, use_latlon=False)
     loc, r = tuple(d['loc']), d['radius']
-    res = mp.nodes_closeto(loc, max_dist=r, max_elmt=d['max_elmt']) if kind == 'nodes' else mp.edges_closeto(loc, max_dist=r, max_elmt=d['max_elmt'])
-    bad = concrete_oracle(kind, graph, cc, loc, r, d['max_elmt'], res)
+    bad, res = concrete_query(d.get('backend', 'inmem'), d['shape'], cc, loc, r, d['max_elmt'])
     print(res, '->', bad or 'consistent')
     return 1 if bad else 0
